@@ -562,9 +562,11 @@ func (hr *hostsRun) checkNotifications(s *packet.Session, o hop, want []model.Gr
 		var hn [5]packet.NameEntry
 		if h != nil && string(h.MACEntry.MAC) == string(n.Addr.MAC) {
 			hn = [5]packet.NameEntry{h.DHCP4Name, h.MDNSName, h.SSDPName, h.LLMNRName, h.NBNSName}
+		} else {
+			// the host was deleted in the same step (aged out and purged): the host-level names the notification was built
+			// from cannot be read back any more, and the MAC-level value may come from another address of the MAC
+			continue
 		}
-		// else: the host was deleted in the same step; its host-level names are unknown now (another address of the MAC may
-		// have set the MAC-level value): the zero name and the MAC-level name are both acceptable
 		mn := [5]packet.NameEntry{e.DHCP4Name, e.MDNSName, e.SSDPName, e.LLMNRName, e.NBNSName}
 		nn := [5]packet.NameEntry{n.DHCP4Name, n.MDNSName, n.SSDPName, n.LLMNRName, n.NBNSName}
 		for i := range nn {
